@@ -69,7 +69,7 @@ func driveSets(plan []M, out *Out, _ []string) {
 	for _, p := range plan {
 		nu, op, same := num(p, "nu"), str(p, "op"), boolean(p, "same")
 		px, py, n := num(p, "px"), num(p, "py"), num(p, "n")
-		e := M{"op": op, "same": same, "px": px, "py": py, "n": n, "rv": 0, "vals": nz(ints(p, "vals")), "prod": [][]int{}, "vis": []int{}}
+		e := M{"op": op, "same": same, "px": px, "py": py, "n": n, "rv": 0, "sty": "", "ety": str(p, "ety"), "vals": nz(ints(p, "vals")), "prod": [][]int{}, "vis": []int{}}
 		var a, b, r sets.Set[int]
 		e["panic"] = protect(func() {
 			as, _ := p["a"].(M)
@@ -116,6 +116,8 @@ func driveSets(plan []M, out *Out, _ []string) {
 					a.Range(func(v int) bool { vis = append(vis, v+1); return len(vis) < n })
 				}
 				e["vis"] = vis
+			case "StringTy":
+				e["sty"] = stringTyped(str(p, "kind"), str(p, "ety"), ints(p, "vals"))
 			case "Ctor":
 				vals := dec1(ints(p, "vals"))
 				switch str(p, "ctor") {
@@ -175,4 +177,39 @@ func dec1(xs []int) []int {
 		out[i] = x - 1
 	}
 	return out
+}
+
+// stringTyped builds a set (kind maps | sync2) of another element type from the member ids and returns its String():
+// "arr" [2]int{v, v+1}, "bstr" the string "[v]", "ptr" a pointer to struct{A, B int}{v, v+1}, "str" the string "s<v>" ("" for 0).
+func stringTyped(kind, ety string, ids []int) string {
+	type pair struct{ A, B int }
+	switch ety {
+	case "arr":
+		return stringOf(kind, ids, func(v int) [2]int { return [2]int{v, v + 1} })
+	case "bstr":
+		return stringOf(kind, ids, func(v int) string { return fmt.Sprintf("[%d]", v) })
+	case "ptr":
+		return stringOf(kind, ids, func(v int) *pair { return &pair{v, v + 1} })
+	case "str":
+		return stringOf(kind, ids, func(v int) string {
+			if v == 0 {
+				return ""
+			}
+			return fmt.Sprintf("s%d", v)
+		})
+	}
+	return stringOf(kind, ids, func(v int) int { return v })
+}
+
+func stringOf[T comparable](kind string, ids []int, to func(int) T) string {
+	var s sets.Set[T]
+	if kind == "sync2" {
+		s = &sync2.Set[T]{}
+	} else {
+		s = make(tmaps.Set[T])
+	}
+	for _, v := range ids {
+		s.Add(to(v))
+	}
+	return fmt.Sprint(s)
 }
